@@ -115,7 +115,8 @@ class _Inliner(object):
         if q is None or q not in self.defs:
             return None
         name = q.rsplit('.', 1)[-1]
-        if not name.startswith('_') or name.startswith('__'):
+        if not name.startswith('_') or (name.startswith('__') and
+                                        name.endswith('__')):
             return None
         if q in self.known:
             return None
